@@ -43,9 +43,85 @@ package dispatcher
 //@   requires[base] transferAttr != nil && taOK(transferAttr)
 //@   modifies ghosts, transferAttr.destinationCoin
 //@   ensures[C06] err == nil ==> payloadOK(payload)
+//@   ensures[C12] err != nil ==> amt_has == old(amt_has) && amt_val == old(amt_val) && cnt_has == old(cnt_has) && cnt_val == old(cnt_val)     // a refused transfer leaves no trace in the statistics
 //@   ensures[C06] !payloadOK(payload) ==> disp_act_n == old(disp_act_n) && disp_fwd_n == old(disp_fwd_n)
 //@   ensures[C06] err == nil ==> disp_act_n == old(disp_act_n) + len(payload.PreActions) && disp_fwd_n == old(disp_fwd_n) + 1
 //@   ensures[C06] err == nil ==> forall j int :: 0 <= j && j < len(payload.PreActions) ==> disp_act_log[old(disp_act_n) + j] == payload.PreActions[j]
 //@   ensures[C06] err == nil ==> disp_fwd_ta == transferAttr && disp_fwd_fw == payload.Forwarding
 //@   ensures[C06] err == nil && len(payload.PreActions) > 0 ==> disp_act_ta == transferAttr && disp_fwd_coin == disp_exit
 //@   ensures[C06] err == nil && len(payload.PreActions) == 0 ==> disp_fwd_coin == old(transferAttr.destinationCoin)
+
+// ---------------------------------------------------------------------------------------------
+// Dispatch statistics are the fold of the successful transfers (C12)
+// ---------------------------------------------------------------------------------------------
+
+// Recorded totals of a route/denom key and count of a route key (absent entries read as zero).
+//@ macro amtIn(d, k) = ite(amt_has[d.dispatchedAmounts][k], val(amt_val[d.dispatchedAmounts][k].Incoming), 0)
+//@ macro amtOut(d, k) = ite(amt_has[d.dispatchedAmounts][k], val(amt_val[d.dispatchedAmounts][k].Outgoing), 0)
+//@ macro cntOf(d, k) = ite(cnt_has[d.dispatchedCounts][k], cnt_val[d.dispatchedCounts][k], 0)
+// Store invariant: recorded totals are non-nil and non-negative (established by validated genesis,
+// preserved by every update below).
+//@ macro amtWF(d) = forall k T_cosmossdk_io_collections_Quad_int32_string_string_string_ :: amt_has[d.dispatchedAmounts][k] ==>
+//@     !isnil(amt_val[d.dispatchedAmounts][k].Incoming) && !isnil(amt_val[d.dispatchedAmounts][k].Outgoing) &&
+//@     val(amt_val[d.dispatchedAmounts][k].Incoming) >= 0 && val(amt_val[d.dispatchedAmounts][k].Outgoing) >= 0
+
+// One read-modify-write of a totals entry: exactly that key changes, by exactly the positive parts.
+//@ func (d *Dispatcher) updateDispatchedAmount(ctx, sourceID, destID, denom, newAmount) (err)
+//@   requires[inv]  d != nil
+//@   requires[base] sourceID != nil && destID != nil && !isnil(newAmount.Incoming) && !isnil(newAmount.Outgoing) && destID.ProtocolId >= 0
+//@   requires[C12]  amtWF(d)
+//@   modifies amt_has, amt_val
+//@   letold k = quad4(sourceID.ProtocolId, sourceID.CounterpartyId, idstr(destID.ProtocolId, destID.CounterpartyId), denom)
+//@   letold inc = ite(val(newAmount.Incoming) > 0, val(newAmount.Incoming), 0)
+//@   letold out = ite(val(newAmount.Outgoing) > 0, val(newAmount.Outgoing), 0)
+//@   ensures[C12] err == nil ==> amtIn(d, k) == old(amtIn(d, k)) + inc && amtOut(d, k) == old(amtOut(d, k)) + out && amt_has[d.dispatchedAmounts][k]
+//@   ensures[C12] err == nil ==> forall j T_cosmossdk_io_collections_Quad_int32_string_string_string_ :: j != k ==> amtIn(d, j) == old(amtIn(d, j)) && amtOut(d, j) == old(amtOut(d, j))
+//@   ensures[C12] err != nil ==> amt_has == old(amt_has) && amt_val == old(amt_val)
+//@   ensures[C12] amtWF(d)
+
+//@ func (d *Dispatcher) updateDispatchedCounts(ctx, sourceID, destID) (err)
+//@   requires[inv]  d != nil
+//@   requires[base] sourceID != nil && destID != nil
+//@   modifies cnt_has, cnt_val
+//@   letold k = quad4(sourceID.ProtocolId, sourceID.CounterpartyId, destID.ProtocolId, destID.CounterpartyId)
+//@   ensures[C12] err == nil ==> cntOf(d, k) == old(cntOf(d, k)) + 1
+//@   ensures[C12] err == nil ==> forall j T_cosmossdk_io_collections_Quad_int32_string_int32_string_ :: j != k ==> cntOf(d, j) == old(cntOf(d, j))
+//@   ensures[C12] err != nil ==> cnt_has == old(cnt_has) && cnt_val == old(cnt_val)
+
+// One entry when the denomination is unchanged (incoming = source amount, outgoing = destination
+// amount), two otherwise (incoming on the source denomination, outgoing on the destination one).
+//@ func (d *Dispatcher) BuildDenomDispatchedAmounts(attr) (ddas, err)
+//@   requires[base] attr != nil ==> !isnil(attr.sourceCoin.Amount) && !isnil(attr.destinationCoin.Amount)
+//@   ensures[C12] attr == nil ==> err != nil
+//@   ensures[C12] attr != nil ==> err == nil
+//@   ensures[C12] err == nil && attr.sourceCoin.Denom == attr.destinationCoin.Denom ==> len(ddas) == 1 && ddas[0].Denom == attr.sourceCoin.Denom &&
+//@                  ddas[0].AmountDispatched.Incoming == attr.sourceCoin.Amount && ddas[0].AmountDispatched.Outgoing == attr.destinationCoin.Amount
+//@   ensures[C12] err == nil && attr.sourceCoin.Denom != attr.destinationCoin.Denom ==> len(ddas) == 2 && ddas[0].Denom == attr.sourceCoin.Denom && ddas[1].Denom == attr.destinationCoin.Denom &&
+//@                  ddas[0].AmountDispatched.Incoming == attr.sourceCoin.Amount && val(ddas[0].AmountDispatched.Outgoing) == 0 && !isnil(ddas[0].AmountDispatched.Outgoing) &&
+//@                  val(ddas[1].AmountDispatched.Incoming) == 0 && !isnil(ddas[1].AmountDispatched.Incoming) && ddas[1].AmountDispatched.Outgoing == attr.destinationCoin.Amount
+
+// The whole update for one transfer t = (source id, destination id, source coin, destination coin):
+// totals of the one or two (route, denom) keys grow by the incoming / outgoing amounts, the count of
+// the route key grows by one, every other entry is unchanged.
+//@ macro srcP(a) = a.sourceID.ProtocolId
+//@ macro srcC(a) = a.sourceID.CounterpartyId
+//@ macro dstC(f) = cpOfIface(f.Attributes.cachedValue)
+//@ func (d *Dispatcher) UpdateStats(ctx, attr, forwarding) (err)
+//@   requires[inv]  d != nil
+//@   requires[base] attr != nil ==> coinOK(attr.sourceCoin) && coinOK(attr.destinationCoin)
+//@   requires[C12]  amtWF(d)
+//@   requires[C12]  forwarding != nil && forwarding.Attributes != nil ==> ref(forwarding.Attributes.cachedValue) != 0
+//@   modifies amt_has, amt_val, cnt_has, cnt_val
+//@   loop 0 unroll 2
+//@   letold ks = quad4(srcP(attr), srcC(attr), idstr(forwarding.ProtocolId, dstC(forwarding)), attr.sourceCoin.Denom)
+//@   letold kd = quad4(srcP(attr), srcC(attr), idstr(forwarding.ProtocolId, dstC(forwarding)), attr.destinationCoin.Denom)
+//@   letold kc = quad4(srcP(attr), srcC(attr), forwarding.ProtocolId, dstC(forwarding))
+//@   letold A = val(attr.sourceCoin.Amount)
+//@   letold B = val(attr.destinationCoin.Amount)
+//@   ensures[C12] err == nil ==> attr != nil && forwarding != nil && cntOf(d, kc) == old(cntOf(d, kc)) + 1
+//@   ensures[C12] err == nil ==> forall j T_cosmossdk_io_collections_Quad_int32_string_int32_string_ :: j != kc ==> cntOf(d, j) == old(cntOf(d, j))
+//@   ensures[C12] err == nil && ks == kd ==> amtIn(d, ks) == old(amtIn(d, ks)) + A && amtOut(d, ks) == old(amtOut(d, ks)) + B
+//@   ensures[C12] err == nil && ks != kd ==> amtIn(d, ks) == old(amtIn(d, ks)) + A && amtOut(d, ks) == old(amtOut(d, ks)) &&
+//@                                          amtIn(d, kd) == old(amtIn(d, kd)) && amtOut(d, kd) == old(amtOut(d, kd)) + B
+//@   ensures[C12] err == nil ==> forall j T_cosmossdk_io_collections_Quad_int32_string_string_string_ :: j != ks && j != kd ==> amtIn(d, j) == old(amtIn(d, j)) && amtOut(d, j) == old(amtOut(d, j))
+//@   ensures[C12] amtWF(d)
